@@ -11,7 +11,8 @@ EXPLANATION = ("Abstract path enumeration of Function.oracle over the finite dom
                "term needs a gradient?) against the decision table of the documented bookkeeping; shape rules for value, the point lookup, the need "
                "classification, add_point (pruning of all three members, registration, stationary list) and the weighted-sum remainder (normal form, "
                "unrolled for 1..3 terms); differentiability flag of sums, multiples and of the 24 families; stationary / fixed points; every consumer of "
-               "a composite's weights works on pruned weights.")
+               "a composite's weights works on pruned weights."
+               ' Also: the operators of Function (sum, difference, multiples) by abstract interpretation, including an operand that is the receiver itself.')
 TRUSTED = ["CPython ast", "sa/nf.py arithmetic"]
 ASSUMPTIONS = ["the order-dependent assignment of the remainder over arbitrary call histories is checked per call (one add_point), not over histories"]
 
